@@ -9,9 +9,12 @@ import time
 
 import amcdriver as D
 
-RULE = ('one run = one seed = one container (10 kinds: vector, SmallVector inline/heap, FixedCapacityVector, FlatSet over vector / SmallVector, SmallSet over '
-        'std::set / FlatSet in inline and large state), 2-6 reader threads calling const operations on it and 0-3 writer threads mutating their own '
-        'containers, each with a seeded script of 3-20 operations, released one operation at a time in a seeded order; ThreadSanitizer judges the '
+RULE = ('one run = one seed = one container (24 kinds: vector with amc::allocator / std::allocator / 64-bit size_type, SmallVector inline/heap, '
+        'FixedCapacityVector, FlatSet over vector / SmallVector / FixedCapacityVector with std::less<T> and the transparent std::less<>, SmallSet over '
+        'std::set / FlatSet in inline and large state; class and int elements), 2-6 reader threads calling const operations on it (size, iteration, '
+        'element access, lookups incl. heterogeneous keys, bounds, comparisons, copy / range construction, key_comp) and 0-3 writer threads mutating '
+        'two containers of their own (push/insert/erase/assign/swap/move/merge/extract/bulk insert/swap2, copy-assignment from the shared one), each '
+        'with a seeded script of 3-20 operations, released one operation at a time in a seeded order; ThreadSanitizer judges the '
         'operations as concurrent because the scheduler hand-offs are excluded from its happens-before tracking; an evaluation is one run; '
         'distinct_nontrivial counts runs (every run has its own seed, scripts and release order)')
 TSAN_ENV = 'halt_on_error=0 exitcode=0 report_signal_unsafe=0 history_size=4 second_deadlock_stack=0'
